@@ -1,4 +1,5 @@
 import ShredModel.Lemmas.AsyncMore
+import ShredModel.Lemmas.Scenario
 /-!
 # C15 — asynchronous dispatcher: completion is observable and never overtaken
 
@@ -198,6 +199,29 @@ theorem each_at_most_once (h : Run P c l) (hnd : P.job.sys.Nodup) (d : Nat) (e :
     (projD d l).count e ≤ 1 :=
   inv_at_most_once (run_inv h) hnd d e
 
+/-- the dispatcher `build_async` produces for a registration sequence (`Lemmas/Scenario.lean`:
+any list of registrations whose dependencies name earlier ones, any thread-local list) -/
+def ofScenario (sc : Scenario) : APlan := ⟨stagesTask sc.final.b.stages, sc.tl⟩
+
+/-- **C15 (exactly once) for every registration sequence**: the `Nodup` hypothesis of
+`each_once` holds of every layout the builder produces, and every registered system is in it. -/
+theorem scenario_each_once (sc : Scenario) {op : AOp} {v : Bool} (h : Run (ofScenario sc) c l)
+    (hl : l = l1 ++ .ret op v :: l2) (h1 : op ≠ .running) (d : Nat) (hd : d < dispatches l1)
+    (x : SysTag) (hx : x < sc.final.n) :
+    (projD d l1).count (Ev.F x) = 1 ∧ (projD d l1).count (Ev.D x) = 1 := by
+  obtain ⟨z, hz⟩ := sc.good
+  have hnd := nodup_dispatchTask hz sc.tl sc.tl_nodup sc.tl_fresh
+  rw [sys_dispatchTask] at hnd
+  have hnd' : (ofScenario sc).job.sys.Nodup := by
+    show (stagesTask sc.final.b.stages).sys.Nodup
+    rw [sys_stagesTask]
+    exact (List.nodup_append.mp hnd).1
+  refine each_once h hl h1 hnd' d hd x ?_
+  show x ∈ (stagesTask sc.final.b.stages).sys
+  rw [sys_stagesTask, stages_eq_of_zips hz.zips, flatten_sys_eq_allIds hz]
+  apply List.count_pos_iff.mp
+  rw [hz.ids x]; simp [hx]
+
 /-- **Transfer to the driver.** A merged log accepted by the executable acceptor is a run;
 all of the above therefore holds of it. -/
 theorem accepted_is_run (h : acceptsLog P l = true) : ∃ c, Run P c l :=
@@ -262,4 +286,5 @@ end Shred
 #print axioms Shred.Async.wait_runs_tl
 #print axioms Shred.Async.each_once
 #print axioms Shred.Async.each_at_most_once
+#print axioms Shred.Async.scenario_each_once
 #print axioms Shred.Async.accepted_is_run
